@@ -375,6 +375,23 @@ func (w *World) verifyEscapedClosures(x *Exec, fn *ssa.Function, c *FuncContract
 						fr.val(st, fv)
 					}
 					fr.args = args
+					x.vc.pcNow = st.pc // facts about this state are not guarded by the previous function's path
+					// ghost variables exist from the start (created lazily they
+					// would be different unknowns on different paths)
+					{
+						var gn []string
+						for n := range w.ghosts {
+							gn = append(gn, n)
+						}
+						sort.Strings(gn)
+						for _, n := range gn {
+							if gc := x.ghostCell(n); gc != nil {
+								if _, ok := st.cells[gc]; !ok {
+									x.initCell(st, gc)
+								}
+							}
+						}
+					}
 					root := af
 					for root.Parent() != nil {
 						root = root.Parent()
